@@ -39,7 +39,7 @@ PROPS = {
     "C18": dict(kind="lib", level="exploration", modes=[("c18", 9240, 92400)], floor=500, exhaustive=True,
                 rule="index i -> (variable selector, value selector) = i mod 154 over the full 11 x 14 matrix, brancher shape (i div 154) mod 5 in {independent, dynamic, alternating, autonomous backup, default}; models with holes, negative values, size-2 domains; half of the runs under random restart/learning options; Decision / NoDecision hook events judged; non-trivial = >=2 decisions"),
     "C10": dict(kind="lib", level="exploration", modes=[("c10", 9000, 120000)], floor=500,
-                rule="random histories of 4-14 operations on one solver {new variables, post, satisfy, satisfy under assumptions (+/- core extraction), iterate k, optimise (both procedures)}, a quarter of the solves with a termination condition that fires at poll 0-5, at a log-uniform poll up to ~360, or at the first poll after the j-th nogood learned by that solve (j=1-3); every answer judged against a shadow model (posted constraints, solutions blocked by iteration per the documented rule, envelope for objective cuts); non-trivial = history contains >=2 solve operations"),
+                rule="random histories of 4-14 operations on one solver {new variables, post, satisfy, satisfy under assumptions (+/- core extraction), iterate k, optimise (both procedures)}, a third of the solves with a termination condition that fires at poll 0-5, at a log-uniform poll up to ~360, or at the first poll after the j-th nogood learned by that solve (j=1-3); every answer judged against a shadow model (posted constraints, solutions blocked by iteration per the documented rule, envelope for objective cuts); non-trivial = history contains >=2 solve operations"),
     "C11": dict(kind="lib", level="fault_enumeration", modes=[("c11", 3200, 16000)], floor=150,
                 rule="per model and entry point (satisfy / iterate / optimise sat-unsat / optimise unsat-sat, by index mod 4): uninterrupted run counts N polls, then the run is repeated on an identically seeded fresh solver with the termination condition firing at poll k for k = 0, s, 2s, ... < N (s = max(1, N div 40) quick, N div 400 thorough) and resumed without interruption; non-trivial = N >= 3 and >= 2 runs actually fired"),
     "C16": dict(kind="lib", level="exploration", modes=[("c16", 18000, 270000)], floor=1000,
